@@ -386,6 +386,11 @@ func analyseFunc(ff *FuncFacts) {
 					}
 					ff.add("globalsRead", g.Pkg.Pkg.Path()+"."+g.Name())
 				}
+				// a package-level variable of another package (time.Local, os.Args, os.Stdout, rand's source …) is state
+				// outside the module: it goes through the same allow-list as calls, as the pseudo callee "var pkg.Name"
+				if g, ok := (*op).(*ssa.Global); ok && g.Pkg != nil && !strings.HasPrefix(g.Pkg.Pkg.Path(), modPath) {
+					ff.add("external", "var "+g.Pkg.Pkg.Path()+"."+g.Name())
+				}
 			}
 			switch x := in.(type) {
 			case *ssa.FieldAddr:
